@@ -53,6 +53,18 @@ def _trans(env, s, a):
     return s2, env.observation(s2, key=k), env.reward(s, a, s2, key=k), env.terminal(s2, key=k), env.transition_info(s, a, s2)
 
 
+@eqx.filter_jit
+def _funcs(env, s, a, s2):
+    k = jr.key(0)
+    return env.observation(s2, key=k), env.reward(s, a, s2, key=k), env.terminal(s2, key=k), env.transition_info(s, a, s2)
+
+
+def _opts_key(opts):
+    """JSON-able option dict -> hashable, sorted tuple (ranges become tuples; 'inf' strings become floats)."""
+    conv = lambda v: tuple(float(x) for x in v) if isinstance(v, (list, tuple)) else v
+    return tuple(sorted((k, conv(v)) for k, v in dict(opts).items()))
+
+
 def _np(x):
     return np.asarray(x, np.float64)
 
@@ -136,6 +148,8 @@ def _compare_step(ctx, name, G, s, a, s2, obs2, rew, term, info, first, tags):
         G.do_simulation = orig
     which = "first-step" if first else "step"
     contact = G.data.ncon > 0
+    if _np(obs2).shape != _np(gobs).shape:
+        ctx.fail(f"C17/{name}/observation-size-differs", tags=tags, lerax=list(_np(obs2).shape), reference=list(_np(gobs).shape))
     d_obs = float(np.max(np.abs(_np(obs2) - _np(gobs)) / (2e-5 + 1e-4 * np.abs(_np(gobs)))))
     if d_obs > 1.0:
         idx = int(np.argmax(np.abs(_np(obs2) - _np(gobs))))
@@ -154,7 +168,7 @@ def _compare_step(ctx, name, G, s, a, s2, obs2, rew, term, info, first, tags):
 def oracle_episode(ctx: Ctx, case):
     """reset + a short action sequence; every step is judged by layers mj_reset / mj_step."""
     name = case["env"]
-    opts = tuple(sorted(case.get("opts", {}).items()))
+    opts = _opts_key(case.get("opts", {}))
     L, G = lerax_env(name, opts), gym_env(name, opts)
     tags = {"env": name}
     s, obs = _initial(L, jr.key(case["key"]))
@@ -273,7 +287,83 @@ def oracle_boundary(ctx: Ctx, case):
     ctx.count(nontrivial=True, classes=[name, "boundary", "terminated" if gterm else "healthy"], key=[name, case["index"], case["value"], case["key"]])
 
 
-PARTS = {"mj_boundary": oracle_boundary, "mj_model": oracle_model, "mj_reset": oracle_episode, "mj_step": oracle_episode, "mj_physics": oracle_physics}
+def common_options(name):
+    """Constructor options lerax documents under the same name as Gymnasium v5 (found by introspection)."""
+    import inspect
+
+    from lerax.env import mujoco as mj
+
+    ls = inspect.signature(getattr(mj, name).__init__).parameters
+    gs = inspect.signature(type(gym_env(name)).__init__).parameters
+    # uph_cost_weight: Gymnasium v5's HumanoidStandup accepts and documents the weight but its _get_rew() never uses it
+    # (upstream bug), so the reference has no semantics to compare with; lerax applies the documented weight.
+    skip = ("self", "xml_file", "frame_skip", "default_camera_config", "kwargs", "uph_cost_weight")
+    return {k: ls[k].default for k in ls if k in gs and k not in skip}
+
+
+def draw_options(rng, name, with_reset=False):
+    """1-3 documented options moved off their defaults (flags toggled, weights scaled, ranges narrowed/shifted)."""
+    opts = common_options(name)
+    names = [k for k in opts if with_reset or k != "reset_noise_scale"]
+    if not names:
+        return {}
+    out = {}
+    for k in rng.choice(names, size=min(len(names), int(rng.integers(1, 4))), replace=False):
+        d = opts[str(k)]
+        if isinstance(d, bool):
+            v = not d
+        elif isinstance(d, (int, float)):
+            v = float(d) * float(rng.choice([0.0, 0.5, 2.0, 3.5]))
+        else:
+            lo, hi = (float(x) for x in d)
+            f = lambda x, up: (x * (1 + (0.2 if up else -0.2) * np.sign(x)) + (0.05 if up else -0.05)) if np.isfinite(x) else x
+            mode = int(rng.integers(0, 3))
+            lo2, hi2 = (f(lo, True), f(hi, False)) if mode == 0 else (f(lo, True), hi) if mode == 1 else (lo, f(hi, False))
+            if not np.isfinite(hi) and rng.random() < 0.5:
+                hi2 = abs(lo2) + 0.5 if np.isfinite(lo2) else 1.0
+            if not lo2 < hi2:
+                lo2, hi2 = lo, hi
+            v = [float(lo2), float(hi2)]
+        out[str(k)] = v
+    return out
+
+
+def oracle_options(ctx: Ctx, case):
+    """Documented constructor options: the default environment supplies physically valid (s, a, s') triples; the
+    observation / reward / termination / info functions of the environment built with the drawn options are compared
+    with the Gymnasium v5 environment built with the same options, stepped over the same successor."""
+    name = case["env"]
+    opts = _opts_key(case["opts"])
+    L0, Lo, G = lerax_env(name), lerax_env(name, opts), gym_env(name, opts)
+    tags = {"env": name, "opts": json_opts(case["opts"])}
+    ctx.check(tuple(Lo.observation_space.shape) == tuple(G.observation_space.shape), f"C17/{name}/observation-size-differs", tags=tags, lerax=list(Lo.observation_space.shape), reference=list(G.observation_space.shape))
+    s, _ = _initial(L0, jr.key(case["key"]))
+    flags = set()
+    first = True
+    for a in case["actions"]:
+        a = jnp.asarray(a, dtype=jnp.float32)
+        s2 = _trans(L0, s, a)[0]
+        if not np.all(np.isfinite(_np(s2.sim_state.qpos))):
+            break
+        obs2, rew, term, info = _funcs(Lo, s, a, s2)
+        gterm, contact = _compare_step(ctx, name, G, s, a, s2, obs2, rew, term, info, first, tags)
+        if gterm:
+            flags.add("unhealthy_successor")
+        if contact:
+            flags.add("contact")
+        first = False
+        s = s2
+    kinds = sorted({"flag" if isinstance(v, bool) else "weight" if isinstance(v, (int, float)) else "range" for v in case["opts"].values()})
+    ctx.count(nontrivial=True, classes=[name] + kinds + sorted(flags), key=[name, json_opts(case["opts"]), case["key"]])
+
+
+def json_opts(opts):
+    import json
+
+    return json.dumps(opts, sort_keys=True)
+
+
+PARTS = {"mj_boundary": oracle_boundary, "mj_model": oracle_model, "mj_reset": oracle_episode, "mj_step": oracle_episode, "mj_physics": oracle_physics, "mj_options": oracle_options}
 
 OPTIONS = {
     "Ant": [{}, {"exclude_current_positions_from_observation": False}, {"include_cfrc_ext_in_observation": False}, {"terminate_when_unhealthy": False}],
@@ -289,7 +379,7 @@ def worker(ctx: Ctx, payload):
     import time
 
     t0 = time.time()
-    name, n_eps, ep_len, n_phys, with_opts, regress = payload
+    name, n_eps, ep_len, n_phys, with_opts, regress, n_opt = payload
     L = lerax_env(name)
     low, high = np.asarray(L.action_space.low), np.asarray(L.action_space.high)
     rng = np.random.default_rng(ctx.seed)
@@ -313,6 +403,18 @@ def worker(ctx: Ctx, payload):
             for e in range(max(1, n_eps // 3)):
                 case = {"env": name, "opts": opts, "key": int(rng.integers(0, 2**31 - 1)), "actions": [a.tolist() for a in _actions(rng, low, high, ep_len, modes[e % 4])]}
                 run_one("mj_step", oracle_episode, case)
+    for k, d in common_options(name).items():  # every documented flag toggled on its own
+        if isinstance(d, bool):
+            case = {"env": name, "opts": {k: not d}, "key": int(rng.integers(0, 2**31 - 1)), "actions": [a.tolist() for a in _actions(rng, low, high, 4, "uniform")]}
+            run_one("mj_options", oracle_options, case)
+    for e in range(n_opt):
+        case = {"env": name, "opts": draw_options(rng, name), "key": int(rng.integers(0, 2**31 - 1)), "actions": [a.tolist() for a in _actions(rng, low, high, ep_len, modes[e % 4])]}
+        if case["opts"]:
+            run_one("mj_options", oracle_options, case)
+    if with_opts:
+        for e in range(3):
+            case = {"env": name, "opts": draw_options(rng, name, with_reset=True), "key": int(rng.integers(0, 2**31 - 1)), "actions": [a.tolist() for a in _actions(rng, low, high, ep_len, modes[e % 4])]}
+            run_one("mj_step", oracle_episode, case)
     for idx, ths in THRESHOLDS.get(name, []):
         for th in ths:
             for delta in (-3e-2, -2e-3, 2e-3, 3e-2):
@@ -331,5 +433,5 @@ def run(ctx: Ctx):
     for f in sorted((Path(__file__).resolve().parent.parent / "regressions" / "C17_mj").glob("*.json")):
         d = json.loads(f.read_text())
         regs[d["case"]["env"]].append((d["part"], d["case"]))
-    payloads = [(name, ctx.n(6, 60), ctx.n(8, 25), ctx.n(2, 20), not ctx.quick, regs[name]) for name in ENVS]
+    payloads = [(name, ctx.n(6, 60), ctx.n(8, 25), ctx.n(2, 20), not ctx.quick, regs[name], ctx.n(3, 30)) for name in ENVS]
     run_pool(ctx, "checks.c17_reference_mdps", "mujoco_worker", payloads, procs=11)
